@@ -2,6 +2,7 @@ package sim
 
 import (
 	"fmt"
+	"sort"
 	"sync/atomic"
 
 	"github.com/RoaringBitmap/roaring"
@@ -52,7 +53,7 @@ func basePlugins() []*index.SegmentPlugin {
 }
 
 // GatedPlugins returns wrappers round the two bundled segment plugins.
-func (s *Sim) GatedPlugins(onMerge func(n int, live []uint64)) []*index.SegmentPlugin {
+func (s *Sim) GatedPlugins(onMerge func(n int, live []uint64, ids []string)) []*index.SegmentPlugin {
 	var rv []*index.SegmentPlugin
 	for _, b := range basePlugins() {
 		b := b
@@ -85,7 +86,27 @@ func (s *Sim) GatedPlugins(onMerge func(n int, live []uint64)) []*index.SegmentP
 				}
 				s.Rec("merge", fmt.Sprintf("n=%d live=%v", len(segs), live), nil)
 				if onMerge != nil {
-					onMerge(len(segs), live)
+					idset := map[string]bool{}
+					for i, sg := range un {
+						for num := uint64(0); num < sg.Count(); num++ {
+							if i < len(drops) && drops[i] != nil && drops[i].Contains(uint32(num)) {
+								continue
+							}
+							_ = sg.VisitStoredFields(num, func(f string, v []byte) bool {
+								if f == "_id" {
+									idset[string(v)] = true
+									return false
+								}
+								return true
+							})
+						}
+					}
+					var ids []string
+					for id := range idset {
+						ids = append(ids, id)
+					}
+					sort.Strings(ids)
+					onMerge(len(segs), live, ids)
 				}
 				return b.Merge(un, drops, bufSize)
 			},
